@@ -141,4 +141,22 @@ PROPS = {
         "assumptions": ["the transfer performative fits one frame body (first <= M-8, middle < M-8): holds for delivery-tags <= 32 bytes without a large state"],
         "partial": ["decoding a frame body into a performative is the typed codec (C03/C20), exercised by the rt cases, not modelled here"],
     },
+    "C02": {
+        "class_prefixes": ["c02-", "harness-crash"],
+        "subs": [
+            {"name": "c02", "n_quick": 2500, "n_thorough": 100000, "model": "coq/Session/Disposition.v",
+             "rule": "1-3 sender links (rcv-settle-mode first/second at random) on one session; histories of unsettled sends and incoming "
+                     "dispositions (single ids, ranges over several deliveries and links, settled/unsettled, every state incl. the "
+                     "non-terminal received and unset, duplicates, out-of-range, wrong role), initial delivery-ids near 0 and 2^32"},
+        ],
+        "rule": "a case is one send/disposition history run through the real Session + LinkRelay (facade) and the extracted Coq model "
+                "(echo frames, resolved outcomes, session delivery map and unsettled maps after every event); non-trivial = at least one "
+                "send resolved; distinct by case text",
+        "trusted": ["model scope: Session::on_incoming_disposition (both branches, consecutive_chunk_indices, echo construction), "
+                    "LinkRelay::on_incoming_disposition (sender and receiver side), delivery-id stamping; the sender link's "
+                    "send_payload/DeliveryFut and the receiver's dispose* are exercised by the engine-level checks",
+                    "the first..=last loop is modelled by the ascending list of ids present in the map (extensionally equal)"],
+        "assumptions": ["delivery tags are distinct among the unsettled deliveries of one link (the sender derives them from delivery-count)"],
+        "partial": ["pre-settled sends (completed by the sender link without the session) and the receiver-side dispose paths are not in this model"],
+    },
 }
